@@ -2,6 +2,7 @@ package props
 
 import (
 	"fmt"
+	"math"
 
 	"verif/harness/gen"
 	"verif/harness/mon"
@@ -304,11 +305,33 @@ func genScaler(r *gen.R, validOnly bool) (mon.OpReq, Expect, bool) {
 	if r.Chance(0.25) {
 		ns = 1
 	}
-	if !validOnly && r.Chance(0.08) && c > 1 {
-		no = c + 1
+	if !validOnly && r.Chance(0.12) && c > 1 {
+		// an attribute list that fits neither one entry nor the feature count
+		wrong := r.PickInt(c+1, c+1, c-1, 2*c, 2)
+		if wrong == c || wrong < 2 {
+			wrong = c + 1
+		}
+		if r.Chance(0.7) {
+			no = wrong
+		} else {
+			ns = wrong
+		}
 	}
 	o32, o64 := f32s(r, no)
 	s32, s64 := f32s(r, ns)
+	if r.Chance(0.15) { // attribute values for which a step "does nothing": offsets of (signed) zero, scales of one
+		for i := range o32 {
+			o32[i], o64[i] = 0, 0
+			if r.Chance(0.2) {
+				o32[i], o64[i] = float32(math.Copysign(0, -1)), math.Copysign(0, -1)
+			}
+		}
+	}
+	if r.Chance(0.1) {
+		for i := range s32 {
+			s32[i], s64[i] = 1, 1
+		}
+	}
 	req := mon.OpReq{Op: "Scaler", Inputs: []*ref.T{x}, Attrs: []*mon.Attr{mon.AttrFloats("offset", o32), mon.AttrFloats("scale", s32)}}
 	if r.Bool() {
 		req.Attrs[0], req.Attrs[1] = req.Attrs[1], req.Attrs[0]
